@@ -9,7 +9,7 @@ import os
 import shutil
 import tempfile
 
-SALTS = ["phospho_kappa", "phospho_distribution", "kappa", "deltamax_perm", "pH_extremes", "compfile", "shuffle", "fractions_edit",
+SALTS = ["backend_moves", "phospho_kappa", "phospho_distribution", "kappa", "deltamax_perm", "pH_extremes", "compfile", "shuffle", "fractions_edit",
          "omega", "pI", "reduced", "profiles"]
 
 
@@ -38,6 +38,13 @@ def salt(S, obj, seq, rng, rep, k=None, cheap=False):
                 obj.set_phosphosites(rng.sample(sty, min(len(sty), 2)))
                 obj.get_phosphosequence()
                 obj.clear_phosphosites()
+        elif name == "backend_moves":
+            # the permutation moves the sampler uses return NEW objects; the parent must stay what it was
+            so = obj.SeqObj
+            n_ = len(seq)
+            so.swapRes(rng.randrange(n_), rng.randrange(n_))
+            so.swapRandChargeRes(set())
+            so.full_shuffle(set())
         elif name == "kappa":
             obj.get_kappa()
         elif name == "deltamax_perm":
